@@ -1060,6 +1060,7 @@ class Interp:
                     raise Unsupported("del target")
             return
         if isinstance(st, (ast.FunctionDef, ast.AsyncFunctionDef)):
+            self._def_time_names(st, fr)
             fr.locals[st.name] = SFunc("closure", (st, fr), name=st.name)
             return
         if isinstance(st, ast.With):
@@ -1067,6 +1068,27 @@ class Interp:
         if isinstance(st, ast.Nonlocal) or isinstance(st, ast.Global):
             return
         raise Unsupported(f"statement {type(st).__name__}")
+
+    def _def_time_names(self, fn, fr):
+        """python evaluates parameter annotations, the return annotation and default values when the `def` statement runs,
+        in the enclosing scope: a name in them that is a not-yet-bound local of the enclosing function raises
+        UnboundLocalError, a name bound nowhere raises NameError (string annotations are constants: nothing to resolve)"""
+        a = fn.args
+        exprs = [p.annotation for p in a.posonlyargs + a.args + a.kwonlyargs if p.annotation is not None]
+        exprs += [x.annotation for x in (a.vararg, a.kwarg) if x is not None and x.annotation is not None]
+        exprs += [d for d in list(a.defaults) + list(a.kw_defaults) if d is not None]
+        if fn.returns is not None:
+            exprs.append(fn.returns)
+        for e in exprs:
+            for n in ast.walk(e):
+                if isinstance(n, ast.Name) and isinstance(n.ctx, ast.Load):
+                    if n.id in fr.locals:
+                        continue
+                    if n.id in getattr(fr, "local_names", ()):
+                        self.raise_(UnboundLocalError, f"cannot access local variable '{n.id}' where it is not associated with a value")
+                    if n.id in fr.module.__dict__ or hasattr(builtins, n.id):
+                        continue
+                    self.raise_(NameError, f"name '{n.id}' is not defined")
 
     def exec_import(self, st, fr):
         import importlib
